@@ -34,7 +34,9 @@ impl ToTokens for HttpStatusCode {
       StatusCodeToken::MultiStatus207 => quote! { http::StatusCode::MULTI_STATUS },
       StatusCodeToken::AlreadyReported208 => quote! { http::StatusCode::ALREADY_REPORTED },
       StatusCodeToken::ImUsed226 => quote! { http::StatusCode::IM_USED },
-      StatusCodeToken::MultipleChoices300 => quote! { http::StatusCode::MULTIPLE_CHOICES },
+      StatusCodeToken::MultipleChoices300 | StatusCodeToken::Redirection3XX => {
+        quote! { http::StatusCode::MULTIPLE_CHOICES }
+      }
       StatusCodeToken::MovedPermanently301 => quote! { http::StatusCode::MOVED_PERMANENTLY },
       StatusCodeToken::Found302 => quote! { http::StatusCode::FOUND },
       StatusCodeToken::SeeOther303 => quote! { http::StatusCode::SEE_OTHER },
